@@ -76,6 +76,8 @@ def gen_cases(rng, tier):
                 cur = U.unle(bs[pos:pos + w])
                 vals = set(x for x in VALS if x < 256 ** w) | {(cur + 1) % 256 ** w, (cur - 1) % 256 ** w, 256 ** w - 1}
                 if w == 8 and kind == "len":
+                    # counts just below 2^64: with one-byte items the byte length itself is then an advance near usize::MAX
+                    vals |= {2 ** 64 - k for k in (2, 8, 16, 24, 4096)}
                     # counts whose product with the item size wraps modulo 2^64 to something small
                     vals |= {2 ** 64 // sz + k for sz in (2, 4, 8, 16) for k in (0, 1, 2)}
                 if kind == "disc" and w > 1:
